@@ -245,6 +245,9 @@ def run(tier, seed, replay=None):
         if fam == "message" and k == "b":
             for h in hs[:3]:
                 rep.sample(dict(tokens=h["fmt"], D=h["D"], M=h["M"], pieces=h["cont"]))
+    # the cmdline data source's own contribution at the boundaries of D (spec/Cmdline.tla)
+    from checks import c06
+    total += c06.boundary_family(rep, b, tier)
     rep.cov["traces_validated_against_impl"] = total
     rep.cov["evaluations"] = total
     rep.cov["distinct_nontrivial"] = len(nontriv)
